@@ -254,6 +254,35 @@ pub fn const_assign_after_diagnostic(oracle: Oracle) -> Box<dyn Space> {
     space("G-PROG/const-assign-after-diagnostic/prelude", 9, 3, desc, Box::new(gen), oracle)
 }
 
+/// A statement the analyser only answers with its "not implemented" notice (the version line,
+/// calibration, extern, old-style registers), then a statement with a genuine diagnostic: the
+/// diagnostics come in the order of the statements.  The raw statements travel as line items.
+pub fn notice_then_diagnostic(oracle: Oracle) -> Box<dyn Space> {
+    const NOTICES: [&str; 5] = ["OPENQASM 3.0;", "extern e9(int) -> int;", "cal { }", "defcalgrammar \"openpulse\";", "qreg oq9[2];"];
+    let desc = json!({"space": "G-PROG notice then diagnostic", "notices": NOTICES, "later": ["undeclared initializer", "redeclaration", "type error"], "prelude": true});
+    let gen = move |i: u64| -> Option<ProgCase> {
+        let notice = NOTICES[(i / 3) as usize];
+        let later = match i % 3 {
+            0 => Stmt::Decl { konst: false, ty: Ty::plain("int"), name: "y9".into(), init: Some(id("zz9")) },
+            1 => Stmt::Decl { konst: false, ty: Ty::w("float", 64), name: "a".into(), init: None },
+            _ => Stmt::Decl { konst: false, ty: Ty::plain("bool"), name: "y8".into(), init: Some(flt_e("1.5")) },
+        };
+        let mut stmts = Vec::new();
+        if notice.starts_with("OPENQASM") {
+            stmts.push(Stmt::Pragma(notice.to_string()));
+            stmts.extend(prelude());
+        } else {
+            stmts.extend(prelude());
+            stmts.push(Stmt::Pragma(notice.to_string()));
+        }
+        stmts.push(later);
+        stmts.push(Stmt::Reset(crate::model::prog::Operand::Id("r".into())));
+        stmts.push(Stmt::Decl { konst: false, ty: Ty::plain("int"), name: "y7".into(), init: Some(id("zz7")) });
+        Some(ProgCase { stmts, tag: format!("notice-then-diagnostic[{}][{}]", i / 3, i % 3) })
+    };
+    space("G-PROG/notice-then-diagnostic/prelude", 15, 3, desc, Box::new(gen), oracle)
+}
+
 fn flt_e(t: &str) -> Expr {
     Expr::Float(t.to_string())
 }
